@@ -5,8 +5,8 @@ import json, os, subprocess, sys
 RULE = ("for seeded, deterministically generated languages (constraint alternatives as lists), expressions and workflows: the vocabulary (with and without "
         "closure; labels and printed signatures on), expression graphs and workflow graphs (random with_* switches, labels on) are generated in fresh "
         "interpreters with PYTHONHASHSEED 0, 1, 2, 3 and 'random', and once more after unrelated graphs and junk allocations from the same language with the "
-        "tool applications listed in reverse; each graph is canonicalised (rdflib to_canonical_graph; running numbers of printed variable names removed and "
-        "bracketed constraint lists compared as sets) and digests are compared across runs; non-trivial = the graph has at least 10 triples; distinct by graph identity")
+        "tool applications listed in reverse; each graph is canonicalised (rdflib to_canonical_graph; running numbers of printed variable names removed, nothing else) "
+        "and digests are compared across all runs; non-trivial = the graph has at least 10 triples; distinct by graph identity")
 ASSUMPTIONS = ["hash-seed and allocation-history dependence is runtime behaviour the Lean model cannot exhibit: the theorems cover order-independence of the "
                "model's set-iterating steps (canon work list, emission order), the runtime part is exercised here"]
 TRUSTED = ["harness/workers/c19_worker.py", "rdflib.compare.to_canonical_graph"]
@@ -45,11 +45,12 @@ def run(ctx):
             digests = {}
             for (hs, unrel), r in zip(configs, runs):
                 d = r[i]["digest"] if i < len(r) and r[i]["what"] == item["what"] else "missing/" + (r[i]["what"] if i < len(r) else "-")
-                # runs with the same history have the same running numbers: their literals must agree in the printed order too;
-                # across histories the bracketed constraint lists are compared as sets (their order may follow the numbers)
                 digests[f"hashseed={hs}{',after-unrelated' if unrel else ''}"] = d
+            # the literal text with the running numbers removed must agree in every run, printed order included
             same_history = {v for k, v in digests.items() if "after" not in k}
-            across = {v.split("/")[0] for v in digests.values()}
+            # the after-unrelated runs list the tool applications in reverse: when the workflow is rejected, WHICH error comes
+            # first may follow that order (C12, known finding D26); there is no graph to compare then
+            across = {("E" if v.startswith("E:") else v) for v in digests.values()}
             if len(same_history) > 1 or len(across) > 1:
                 ctx.fail(f"{item['what']}: canonical graph differs between runs: {digests}",
                     {"check": "nondeterminism", "kind": kind, "only_after_unrelated": len(same_history) == 1},
